@@ -192,3 +192,41 @@ Proof.
       change (rank (conc c (mkA sh0 MS5 W7 ps0 dn0)) < rank (conc c (mkA sh0 MS5 W0 ps0 dn0))).
       rewrite !rank_conc. unfold arank. cbn. lia.
 Qed.
+
+(* ---- no thread ever reaches one of the error situations that the LTS models as "cannot move" *)
+Lemma prod_enabled : forall c a i p, AInv c a -> 6 <= mnum (a_m a) -> nth_error (a_p a) i = Some p ->
+  finished (pthread p) = true \/ exists s' l, step the_prog true (S (S i)) (conc c a) = Some (s', l).
+Proof.
+  intros c [[fl q u st ini sc sr pu pre lg] m w ps dn] i [ph r] HI H6 Hp. destruct HI. flds. subst.
+  unfold step. cbn [conc sh inited tprods a_sh a_m a_w a_p].
+  rewrite (proj2 (Nat.leb_le 6 (mnum m)) H6). rewrite nth_error_map, Hp. cbn [option_map].
+  assert (Hrt : lookup rt (flags_of m) = Some true) by (apply lookup_rt; lia).
+  destruct ph as [|e|e]; [destruct r as [|e r]|..]; cbn; rewrite ?Hrt; cbn; eauto.
+Qed.
+
+Lemma main_enabled_before_stop : forall c a, AInv c a -> mnum (a_m a) < 7 ->
+  exists s' l, step the_prog true 0 (conc c a) = Some (s', l).
+Proof.
+  intros c [[fl q u st ini sc sr pu pre lg] m w ps dn] HI H7. destruct HI. flds. subst.
+  unfold step. cbn [conc sh tmain tworker a_sh a_m a_w a_p].
+  destruct m; cbn [mnum] in H7; try lia; try (cbn; eauto; fail).
+  assert (Hrt : lookup rt (flags_of (MT ph r)) = Some true) by (apply lookup_rt; cbn; lia).
+  destruct ph as [|e|e]; [destruct r as [|e r]|..]; cbn; eauto.
+Qed.
+
+Lemma no_thread_error : forall c s, wf_config c = true -> reach the_prog c s ->
+  (stop_called (sh s) = false -> exists s' l, step the_prog (threaded c) 0 s = Some (s', l)) /\
+  (started (sh s) = true -> finished (tworker s) = true \/ exists s' l, step the_prog (threaded c) 1 s = Some (s', l)) /\
+  (inited (sh s) = true -> forall i t, nth_error (tprods s) i = Some t ->
+     finished t = true \/ exists s' l, step the_prog (threaded c) (S (S i)) s = Some (s', l)).
+Proof.
+  intros c s Hw R. unfold wf_config in Hw. apply andb_prop in Hw as [Ht _]. rewrite Ht.
+  destruct (reach_described c s Ht R) as (a & -> & HI). pose proof HI as HI0. destruct HI. cbn [conc sh tworker tprods].
+  split; [|split].
+  - intros SC. rewrite i_sc in SC. apply Nat.leb_gt in SC. apply main_enabled_before_stop; auto.
+  - intros ST. rewrite i_started in ST. apply Nat.leb_le in ST.
+    destruct (a_w a) eqn:EW; try (right; apply worker_enabled; auto; rewrite EW; discriminate). left. reflexivity.
+  - intros IN i t Hi. rewrite i_inited in IN. apply Nat.leb_le in IN. rewrite nth_error_map in Hi.
+    destruct (nth_error (a_p a) i) as [p|] eqn:Hp; [|discriminate]. cbn in Hi. inversion Hi; subst t.
+    eapply prod_enabled; eauto.
+Qed.
